@@ -529,6 +529,31 @@ theorem dc_commutator_sound (tol : Rat) (a b prior : List (List (Nat × Nat) × 
           Proofs.C03.fockInterp.evalOp b * Proofs.C03.fockInterp.evalOp a) :=
   dc_commutator_sound_ring Proofs.C03.fockInterp fock_CARRel Proofs.C07D.fock_ι_mul tol a b prior ha hb
 
+/-- **outside the contract** ("Still compute the commutator, but warn the user"): if the terms of
+`operator_a` are merely identity / one-body / normal-ordered two-body terms — NOT necessarily diagonal —
+the pairs (non-diagonal two-body, two-body) go through the fallback
+`additional = normal_ordered(c·t_a t_b - c·t_b t_a); prior_terms += additional`.  In the exact regime
+(tolerance 0: no pruning in `normal_ordered` and `+=`) the function still denotes `prior + [A, B]`
+in every ring with the anticommutation relations. -/
+theorem dc_commutator_fallback_sound_ring {A : Type} [Ring A] (I : Proofs.C03.Interp A) (h : CARRel I)
+    (hmul : ∀ x y, I.ι (x * y) = I.ι x * I.ι y) (a b prior : List (List (Nat × Nat) × GQ))
+    (ha : ∀ e ∈ a, ContractB e.1) (hb : ∀ e ∈ b, ContractB e.1) :
+    I.evalOp (dcCommutator 0 a b prior) =
+      I.evalOp prior + (I.evalOp a * I.evalOp b - I.evalOp b * I.evalOp a) :=
+  Proofs.C07R.dcCommutator_eval0 h.car hmul a b ha hb prior
+
+/-- the same on Fock space for the tolerance the code uses, in the exact regime (hypothesis: pruning
+with that tolerance changes nothing; an executable condition). -/
+theorem dc_commutator_fallback_sound (tol : Rat) (a b prior : List (List (Nat × Nat) × GQ))
+    (ha : ∀ e ∈ a, ContractB e.1) (hb : ∀ e ∈ b, ContractB e.1)
+    (hexact : dcCommutator tol a b prior = dcCommutator 0 a b prior) :
+    Proofs.C03.fockInterp.evalOp (dcCommutator tol a b prior) =
+      Proofs.C03.fockInterp.evalOp prior +
+        (Proofs.C03.fockInterp.evalOp a * Proofs.C03.fockInterp.evalOp b -
+          Proofs.C03.fockInterp.evalOp b * Proofs.C03.fockInterp.evalOp a) := by
+  rw [hexact]
+  exact dc_commutator_fallback_sound_ring Proofs.C03.fockInterp fock_CARRel Proofs.C07D.fock_ι_mul a b prior ha hb
+
 /-! ### `trivially_double_commutes_dual_basis_using_term_info` -/
 
 /-- **`term_info_sound`, ring form.**  Let `α`, `β`, `α'` be grouped terms of the dual-basis Hamiltonian
